@@ -181,4 +181,47 @@ theorem handing_frames_over_one_by_one_breaks_it :
     ∧ (({} : SendTx).run { buffersUntilLast := false, closesBeforeAwait := false } [.frame 1, .last 2, .cancel, .whole [9]]).stuck
       = 1 := by decide
 
+/-- completeness, the other half of all-or-nothing: in a history in which no future is dropped, every message the
+application gave completely is in the peer's pipe, in order, as soon as no hand-over is pending — the transaction
+machinery itself never loses or merges a message -/
+theorem frame_by_frame_send_without_cancellation_delivers_everything (c : TxCfg)
+    (hc : c = dealerTxCfg ∨ c = routerTxCfg ∨ c = pubTxCfg ∨ c = pushTxCfg)
+    (evs : List TxEv) (hev : ∀ e ∈ evs, e ≠ .cancel) :
+    let s := ({} : SendTx).run c evs
+    (s.inflight = none → s.pipe = s.offered) ∧ (∀ m, s.inflight = some m → s.offered = s.pipe ++ [m]) := by
+  have hg : c = goodTx := by
+    rcases hc with h | h | h | h
+    · rw [h]; exact tx_source_shape.1
+    · rw [h]; exact tx_source_shape.2.1
+    · rw [h]; exact tx_source_shape.2.2.1
+    · rw [h]; exact tx_source_shape.2.2.2
+  subst hg
+  have hf := SendTx.full_run evs hev {} SendTx.inv_init (by simp [SendTx.Full])
+  unfold SendTx.Full at hf
+  constructor
+  · intro hn; simpa [hn] using hf
+  · intro m hm; simpa [hm] using hf
+
+/-- … and a dropped future costs at most the one message it was handing over: the number of given messages that are not
+(yet) in the peer's pipe is at most the number of futures dropped, plus the one whose hand-over is pending -/
+theorem each_dropped_future_loses_at_most_one_message (c : TxCfg)
+    (hc : c = dealerTxCfg ∨ c = routerTxCfg ∨ c = pubTxCfg ∨ c = pushTxCfg) (evs : List TxEv) :
+    let s := ({} : SendTx).run c evs
+    s.offered.length ≤ s.pipe.length + cancelCount evs + s.pendingCount := by
+  have hg : c = goodTx := by
+    rcases hc with h | h | h | h
+    · rw [h]; exact tx_source_shape.1
+    · rw [h]; exact tx_source_shape.2.1
+    · rw [h]; exact tx_source_shape.2.2.1
+    · rw [h]; exact tx_source_shape.2.2.2
+  subst hg
+  have := SendTx.loss_run evs {} 0 SendTx.inv_init (by simp [SendTx.pendingCount])
+  simpa using this
+
+/-- non-vacuity of both: a history without cancel delivers all three; with one cancel exactly one is missing -/
+example :
+    (({} : SendTx).run goodTx [.frame 1, .last 2, .complete, .whole [3], .last 4, .complete]).pipe = [[1, 2], [3], [4]]
+    ∧ (let s := ({} : SendTx).run goodTx [.frame 1, .last 2, .cancel, .whole [3]]
+       s.offered.length = 2 ∧ s.pipe.length = 1 ∧ cancelCount [TxEv.frame 1, .last 2, .cancel, .whole [3]] = 1) := by decide
+
 end Rzmq.C09
